@@ -42,6 +42,9 @@ type failoverStatus struct {
 	failover  failover
 	timer     *time.Timer
 	witnesses map[string]struct{}
+	// generation is the epoch of the leader the witnesses have reported. It
+	// is set once, before the failoverStatus is shared.
+	generation uint64
 }
 
 func newFailoverStatus(f failover) *failoverStatus {
